@@ -86,6 +86,8 @@ def _finish(ctx, accept, what):
     if verdict == "violation":
         path = ctx._save(desc, "cex")
         ctx.res["violations"].append(dict(what=what, replay=path, detail=detail, vars=desc.get("vars")))
+        if len(ctx.res["violations"]) >= ctx.max_violations:
+            ctx.E.stop = True
     elif verdict == "ok":
         ctx.res["errors"].append(f"{what}: symbolic run accepts an unsupported header but the real constructor refuses it "
                                  f"(encoding problem): {detail}")
